@@ -219,13 +219,14 @@ def gen_case(rng, direction, n, cid, opts=None):
     for i, t in enumerate(tasks, start=1):
         leaf = not t["kids"]
         t["id"] = ids[i - 1]
-        t["ms"] = leaf and rng.random() < 0.12
+        # (the flag on a summary task means nothing: a summary spans its children)
+        t["ms"] = rng.random() < (0.12 if leaf else 0.08)
         t["est"] = NOQ
         t["spent"] = NOQ
         t["minStart"] = MISSING
         t["fstart"] = MISSING
         t["fend"] = MISSING
-        if t["ms"]:
+        if t["ms"] and leaf:
             # rarely combined: a milestone that carries an estimate, or dates typed in by the user - it still has
             # zero duration and is placed by its prerequisites
             if rng.random() < 0.3:
